@@ -11,6 +11,8 @@ use quote::ToTokens;
 use serde_json::json;
 use std::collections::BTreeSet;
 
+/// derivable traits that own helper attributes
+const ALL_TRAITS: [&str; 7] = ["Debug", "Default", "PartialEq", "Eq", "PartialOrd", "Ord", "Hash"];
 const HELPERS: [&str; 8] = ["derive_ex", "debug", "default", "ord", "partial_ord", "eq", "partial_eq", "hash"];
 
 /// (text, placement mask: 1 type, 2 variant, 4 field)
@@ -120,7 +122,8 @@ fn gen(ch: &mut Ch, thorough: bool) -> Option<Case> {
         "unit-struct" => (vec![], vec![]),
         _ => (vec![], pick_seq(ch, 4, max_len, &mut budget, false)?),
     };
-    let discr = kind == "enum" && ch.flag();
+    // explicit discriminant: 0 none, 1 on the unit variant A, 2 on the attributed tuple variant B (`B(..) = 5`)
+    let discr = if kind == "enum" { ch.pick(3) } else { 0 };
     // the derived set, extended by type-level derive_ex attributes
     let mut derived = traits_of_attr(list);
     for a in &tattrs {
@@ -142,11 +145,14 @@ fn gen(ch: &mut Ch, thorough: bool) -> Option<Case> {
             "unit-struct" => ItemDef::strukt("X", generics, FieldsDef::Unit),
             _ => {
                 let mut a = VariantDef::new("A", FieldsDef::Unit);
-                if discr {
+                if discr == 1 {
                     a.discr = Some("3".into());
                 }
                 let mut b = VariantDef::new("B", FieldsDef::Tuple(vec![FieldDef { attrs: keep(&fattrs), vis: String::new(), name: None, ty: fty.into() }, FieldDef::tuple("u16")]));
                 b.attrs = keep(&vattrs);
+                if discr == 2 {
+                    b.discr = Some("5".into());
+                }
                 let c = VariantDef::new("C", FieldsDef::Named(vec![FieldDef::named("x", "u8")]));
                 ItemDef::enm("X", generics, vec![a, b, c])
             }
@@ -195,6 +201,14 @@ fn failing_cases() -> Vec<Case> {
         format!("{foreign} pub(crate) enum X {{ #[doc = \"v\"] A = 1, #[default] B(#[allow(unused)] u8), C {{ #[ord(ignore)] x: u8 }} }}"),
         format!("{foreign} struct X(#[cfg_attr(all(), allow(dead_code))] pub u8, u16);"),
     ];
+    let items = [
+        items[0].clone(),
+        items[1].clone(),
+        items[2].clone(),
+        // a standard derive below derive_ex owns `#[default]`; helper-named attributes of traits the bad list does not name
+        format!("{foreign} #[derive(Default)] pub enum X {{ A(u8), #[default] B, C {{ #[hash(ignore)] x: u8 }} }}"),
+        format!("{foreign} #[eq(by = f)] pub struct X {{ #[default(5)] pub a: u8, #[partial_ord(reverse)] b: u8 }}"),
+    ];
     let bad_attrs = ["Foo", "Clone(xyz)", "Clone, Foo, Debug", "Clone, bound = 1", "\"lit\"", "Clone(bound(T T))", "Debug, dump(1)"];
     for it in &items {
         for a in bad_attrs {
@@ -231,30 +245,6 @@ fn failing_cases() -> Vec<Case> {
     v
 }
 
-fn strip_helpers_item(item: &mut syn::Item) {
-    fn strip(attrs: &mut Vec<syn::Attribute>) {
-        attrs.retain(|a| !a.path().get_ident().map(|i| HELPERS.contains(&i.to_string().as_str())).unwrap_or(false));
-    }
-    match item {
-        syn::Item::Struct(s) => {
-            strip(&mut s.attrs);
-            for f in s.fields.iter_mut() {
-                strip(&mut f.attrs);
-            }
-        }
-        syn::Item::Enum(e) => {
-            strip(&mut e.attrs);
-            for v in e.variants.iter_mut() {
-                strip(&mut v.attrs);
-                for f in v.fields.iter_mut() {
-                    strip(&mut f.attrs);
-                }
-            }
-        }
-        _ => {}
-    }
-}
-
 /// expected item on an understood list: owned attributes stripped (computed structurally)
 fn strip_owned_text(input: &str, derived: &[String]) -> Result<String, String> {
     let mut it = syn::parse_str::<syn::Item>(input).map_err(|e| e.to_string())?;
@@ -280,10 +270,37 @@ fn strip_owned_text(input: &str, derived: &[String]) -> Result<String, String> {
     Ok(flat_str(it.to_token_stream()))
 }
 
-fn lenient(text_or_item: Result<syn::Item, String>) -> Result<String, String> {
+/// Comparison form for inputs whose derive list cannot be understood: helper attributes that the traits MENTIONED
+/// in the list could own are disregarded (dropped on both sides); every other helper-named attribute belongs to
+/// a trait that is certainly not being derived and must have been kept.
+fn lenient(text_or_item: Result<syn::Item, String>, mentioned: &[String]) -> Result<String, String> {
     let mut it = text_or_item?;
-    strip_helpers_item(&mut it);
+    let strip = |attrs: &mut Vec<syn::Attribute>| attrs.retain(|a| !owned(&format!("#[{}]", a.meta.to_token_stream().to_string().replace(" :: ", "::")), mentioned));
+    match &mut it {
+        syn::Item::Struct(s) => {
+            strip(&mut s.attrs);
+            for f in s.fields.iter_mut() {
+                strip(&mut f.attrs);
+            }
+        }
+        syn::Item::Enum(e) => {
+            strip(&mut e.attrs);
+            for v in e.variants.iter_mut() {
+                strip(&mut v.attrs);
+                for f in v.fields.iter_mut() {
+                    strip(&mut f.attrs);
+                }
+            }
+        }
+        _ => {}
+    }
     Ok(flat_str(it.to_token_stream()))
+}
+
+/// every derivable trait whose name occurs as an identifier anywhere in the argument text
+fn mentioned_traits(attr: &str) -> Vec<String> {
+    let words: Vec<String> = attr.split(|c: char| !(c.is_alphanumeric() || c == '_')).filter(|w| !w.is_empty()).map(|w| w.to_string()).collect();
+    ALL_TRAITS.iter().filter(|t| words.iter().any(|w| w == *t)).map(|t| t.to_string()).collect()
 }
 
 #[derive(Debug)]
@@ -316,12 +333,13 @@ fn evaluate(c: &Case) -> Eval {
     // restricted to foreign content and structure (I6).
     let list_understood = !matches!(c.kind, "bad-arguments" | "unsupported-item" | "impl-item");
     if (had_error || must_fail) && !list_understood {
-        let got = lenient(Ok(first));
-        let want = lenient(syn::parse_str::<syn::Item>(&c.input).map_err(|e| e.to_string()));
+        let mentioned = mentioned_traits(&c.attr);
+        let got = lenient(Ok(first), &mentioned);
+        let want = lenient(syn::parse_str::<syn::Item>(&c.input).map_err(|e| e.to_string()), &mentioned);
         match (got, want) {
             (Ok(g), Ok(w)) => {
                 if g != w {
-                    return Eval { symptom: Some(("item-altered-on-failure".into(), format!("re-emitted `{g}` for input `{w}` (helper attributes disregarded)"))), had_error };
+                    return Eval { symptom: Some(("item-altered-on-failure".into(), format!("re-emitted `{g}` for input `{w}` (helper attributes of the traits named in the list disregarded)"))), had_error };
                 }
             }
             (_, Err(e)) => return Eval { symptom: Some(("generator-produced-unparsable-input".into(), e)), had_error },
@@ -419,7 +437,7 @@ pub fn run(ctx: &Ctx, rep: &mut Report) {
     }
     if ctx.replay.is_none() {
         // the <= 1-attribute slice through the real pipeline
-        let inputs: Vec<crate::conform::Input> = cases.iter().filter(|c| c.kind != "interleave" && !c.vector.is_empty() && c.input.matches("#[").count() <= 1 && !c.input.trim_start().starts_with("#[derive_ex")).map(|c| crate::conform::Input { entry: crate::expand::Entry::Attr, attr: c.attr.clone(), item: c.input.clone() }).collect();
+        let inputs: Vec<crate::conform::Input> = cases.iter().filter(|c| c.kind != "interleave" && !c.vector.is_empty() && c.input.matches("#[").count() <= 1 && !c.input.contains(") = 5") && !c.input.trim_start().starts_with("#[derive_ex")).map(|c| crate::conform::Input { entry: crate::expand::Entry::Attr, attr: c.attr.clone(), item: c.input.clone() }).collect();
         crate::conform::validate_or_die(rep, "c14p", &inputs);
     }
 }
